@@ -54,6 +54,22 @@ func unsignedFacts(t *an.Terms, v ssa.Value, depth int) an.FactSet {
 	return out
 }
 
+// isCallResult: v is component idx of the result tuple of a static call to fn.
+func isCallResult(t *an.Terms, v ssa.Value, fn *ssa.Function, idx int) bool {
+	if v == nil || fn == nil {
+		return false
+	}
+	if d := t.Deref(v); d != nil {
+		v = d
+	}
+	ex, isEx := v.(*ssa.Extract)
+	if !isEx || ex.Index != idx {
+		return false
+	}
+	call, isCall := ex.Tuple.(*ssa.Call)
+	return isCall && an.StaticCallee(&call.Call) == fn
+}
+
 // boundAlloc returns the local variable (Alloc) of `outer` that the closure `inner`
 // captures as free variable fv, looking at the MakeClosure sites of inner in outer.
 func boundAlloc(outer, inner *ssa.Function, fv *ssa.FreeVar) *ssa.Alloc {
